@@ -7,6 +7,10 @@ Run-time frame contracts on the REAL bionumpy functions over an enumerated small
   chunk contracts:  a lazily read file chunk writes the same bytes before and after its fields were read / parsed,
                     field values do not depend on what was read before, re-reading gives equal values, writing a
                     modified copy (bnp.replace) leaves the original chunk and its bytes alone.
+  histories:        a chunk that ALREADY carries user-set values (column assigned, or made by bnp.replace) keeps its
+                    fields, tolist() and written bytes when a second public operation (replace of another column,
+                    reverse complement / translation, indexing, concatenate, writing ...) is applied to it
+                    ("chunk:<format>:history:<operation>:original-<observable>-changed").
 
 The oracle is the statement itself: equality of snapshots (taken with copy.deepcopy, so that taking the snapshot
 does not change the aliasing state of lazily sliced ragged arrays) - results are never compared with an expected
@@ -1430,7 +1434,10 @@ def _eval_history_chain(col, env, scenario, case, sig):
     _use(env, ts[-1])
     ok = True
     for j in range(1 if by_setattr else 0, len(fields)):           # every chunk of the chain but the last one
-        base = _observe(env, _chain(env, fields, j, by_setattr)[j])
+        key = ("chain", by_setattr, tuple(fields[:j]))         # what chunk j is depends on the first j steps only
+        if key not in env._hist_base:
+            env._hist_base[key] = _observe(env, _chain(env, fields, j, by_setattr)[j])
+        base = env._hist_base[key]
         got = _observe(env, ts[j])
         ok = _compare_obs(col, case, lambda o: sig("history:replace-chain:original-%s-changed" % o), base, got,
                           "chunk number %d of the replace chain over %r" % (j, fields)) and ok
@@ -1464,8 +1471,8 @@ def _representatives(env, S):
 
 # quick tier: formats whose chunks are cheap to read, write and parse get the whole treatment (all ordered pairs ...)
 HISTORY_CHEAP = ("bed", "bed6", "bdg", "fastq", "fastq-codons", "gfa", "sizes", "pairs")
-HISTORY_OPS_SHORT = ("replace-nothing", "getitem/reverse", "getitem/mask", "getitem/int", "concatenate/same-history", "write", "tolist",
-                     "get_data_object", "get_reverse_complement", "translate_dna_to_protein")
+HISTORY_OPS_SHORT = ("getitem/mask", "getitem/int", "tolist", "get_data_object",
+                     "replace-nothing", "getitem/reverse", "concatenate/same-history", "write", "get_reverse_complement", "translate_dna_to_protein")
 HISTORY_OPS_NOT_IN_QUICK = ("repr", "iter", "toiter", "len", "getitem/int-last", "getitem/all", "write/slice", "concatenate/fresh-first")
 HISTORY_EXTRAS = (("replace", ["observe-first"]), ("slice-setattr", []), ("replace", ["read-first"]), ("slice-replace", []),
                   ("slice-setattr", ["read-first"]))
@@ -1493,11 +1500,11 @@ def history_scenarios(env, tier, full_file):
     alt = lambda i: M[(i // 2 + i) % 2]
     # (a) bnp.replace(T, f2=..) on a chunk T that carries a user-set f1: ordered pairs of columns
     if cls in ("full", "cheap"):
-        # all ordered pairs (f2 == f1: replaced by yet another value); off the ring: light observation, and in the quick
-        # tier one of the two ways of setting f1 only
+        # all ordered pairs (f2 == f1: replaced by yet another value); off the ring: light observation, and one of the two
+        # ways of setting f1 only
         for i, a in enumerate(S):
             for j, b in enumerate(S):
-                for mode in (M if (cls == "full" or (a, b) in ring) else M[(i + j) % 2:(i + j) % 2 + 1]):
+                for mode in (M if (a, b) in ring else M[(i + j) % 2:(i + j) % 2 + 1]):
                     yield ["history", mode, a, "replace", b] + ([] if (a, b) in ring else [["light"]])
     elif cls == "medium":
         for i, (a, b) in enumerate(ring):  # forward pairs: full observation, reversed pairs: light
@@ -1509,15 +1516,13 @@ def history_scenarios(env, tier, full_file):
     #     assignment, assignment / replace on a slice of T
     for i, (a, b) in enumerate(fwd):
         if cls == "full":
-            for op, fl in HISTORY_EXTRAS[:4]:
-                for mode in (M if not fl or fl == ["observe-first"] else M[i % 2:i % 2 + 1]):
-                    yield ["history", mode, a, op, b] + ([fl] if fl else [])
-            yield ["history", M[1 - i % 2], a, "slice-setattr", b, ["read-first"]]
+            for n_op, (op, fl) in enumerate(HISTORY_EXTRAS):
+                yield ["history", M[(i + n_op) % 2], a, op, b] + ([fl] if fl else [])
         elif cls == "cheap":
             for op, fl in HISTORY_EXTRAS[:4]:
                 yield ["history", M[i % 2], a, op, b] + ([fl] if fl else [])
-        elif cls == "sub":
-            op, fl = HISTORY_EXTRAS[(i + len(env.lines)) % len(HISTORY_EXTRAS)]
+        elif cls == "sub" and i % 2 == 0:
+            op, fl = HISTORY_EXTRAS[(i // 2 + len(env.lines)) % len(HISTORY_EXTRAS)]
             yield ["history", M[i % 2], a, op, b] + ([fl] if fl else [])
         elif cls == "medium" and i < 4:
             op, fl = HISTORY_EXTRAS[i]
@@ -1526,13 +1531,13 @@ def history_scenarios(env, tier, full_file):
     ops = list(_history_ops(env))
     if cls == "full":
         reps = _representatives(env, S)
-        firsts = [(m, k) for k in reps for m in M]
+        firsts = [(m, k) for i, k in enumerate(reps) for m in (M if k in ("sequence", "dna") or i == 0 else M[i % 2:i % 2 + 1])]
     elif cls == "cheap":
         ops = [o for o in ops if o not in HISTORY_OPS_NOT_IN_QUICK]
         firsts = [(M[len(S) % 2], S[1 % len(S)])]
         firsts += [(m, k) for k in S if k in ("sequence", "dna") for m in M if (m, k) not in firsts]
     else:
-        short = HISTORY_OPS_SHORT if cls in ("medium", "sub") else (("replace-nothing", "getitem/reverse", "concatenate/same-history", "write",
+        short = HISTORY_OPS_SHORT if cls == "medium" else HISTORY_OPS_SHORT[4:] if cls == "sub" else (("replace-nothing", "getitem/reverse", "concatenate/same-history", "write",
                                                                      "tolist") if cls == "light" else ("write",))
         ops = [o for o in ops if o in short]
         firsts = [(M[len(env.lines) % 2], S[len(env.lines) % len(S)])]
@@ -1546,7 +1551,7 @@ def history_scenarios(env, tier, full_file):
             for op in ("replace-nothing", "getitem/reverse", "concatenate/same-history", "write", "get_data_object"):
                 yield ["history", "replace", k, op, None, ["observe-first"]]
     # (d) chains of replace: t1 = replace(t, a=..); t2 = replace(t1, b=..); ... - every earlier chunk observed at the end
-    chains = [S[:2], S[:3]]
+    chains = [S[:3]] if cls == "sub" else [S[:2], S[:3]]
     if cls in ("full", "cheap", "medium"):
         chains += [S[::-1][:3]]
     if cls in ("full", "cheap"):
@@ -1662,7 +1667,12 @@ def run(tier="quick", seed=0):
                     rule="registry of public functions x exhaustively enumerated small arguments (token / sequence / interval pools, all "
                          "tuples up to a length bound, contiguous and sliced-view forms); files of every text format x every "
                          "sub-selection of a pool of lines x field-access orders (all, reversed, singles, ordered pairs), slices, "
-                         "replace / assignment on copies, public functions on field values. distinct = distinct (function, argument) "
+                         "replace / assignment on copies, public functions on field values; multi-step histories on lazily read chunks: "
+                         "(way of setting f1: assignment / replace) x (ordered pair of assignable columns f1, f2, also f2 == f1) for "
+                         "replace(T, f2=..), and x a registry of second operations (indexing, concatenate, writing, conversions, "
+                         "reverse complement / translation, assignment or replace on a slice), chains of replace - the chunk that "
+                         "carries the user-set values is observed (fields, written bytes, tolist()) against a twin with the same "
+                         "first step. distinct = distinct (function, argument) "
                          "or (file, scenario); every case is non-trivial (it evaluates a frame / repeatability contract). "
                          "Sampling (seeded) only for tuples of length 3 in the quick tier and float triples.",
                     budget_s=58 if tier == "quick" else 570)
@@ -1676,7 +1686,18 @@ def run(tier="quick", seed=0):
         "genomic": {"genome": GENOME, "entries": GENOMIC_POOL, "entries per table": "1..3 (quick: singles + every 4th)"},
         "table": {"kinds": list(TABLE_KINDS), "rows": "1..4" if tier != "quick" else "1, 3", "indices": "slices, all boolean masks, index lists of length 1..2, ints"},
         "chunk": {"formats": list(FORMATS), "lines per file": "every non-empty sub-selection of the pool (quick: whole pool and first line)",
-                  "pool sizes": {k: len(v[3]) for k, v in FORMATS.items()}},
+                  "pool sizes": {k: len(v[3]) for k, v in FORMATS.items()},
+                  "histories": {"first step": list(HISTORY_MODES) + ["(variants) all fields read before", "chunk observed before the second operation"],
+                                "second operation with a field": list(HISTORY_FIELD_OPS),
+                                "field pairs": "thorough, whole pool and quick, formats %s: all ordered pairs incl. f2 == f1 (pairs of "
+                                               "neighbouring columns in both ways of setting f1 and with full observation, the others in one "
+                                               "way, top-level columns + written bytes observed); other files: neighbouring columns (ring), "
+                                               "quick: in both orders for the formats not in %s" % (list(HISTORY_CHEAP), list(LIGHT_IN_QUICK)),
+                                "second operations without a field": "registry of ~27 (thorough, whole pool: one assigned column per kind of "
+                                                                     "value, sequence columns in both ways; otherwise one column, 1..10 operations)",
+                                "replace chains": "length 2..4, whole column list and its reverse, thorough: every cyclic window of 3 columns; "
+                                                  "every chunk of the chain but the last is observed",
+                                "files": "thorough: every sub-selection of the pool; quick: whole pool and first line"}},
     }
     deadlines = QUICK_DEADLINES if tier == "quick" else THOROUGH_DEADLINES
     for section in SECTION_ORDER:
